@@ -54,15 +54,19 @@ CLAIMED = {
    note="Trusted: Coq kernel, extraction (ExtrOcamlBasic), OCaml driver incl. float_of_string as f64 parser and identity as LZ4, Rust harness, generators and the Python oracle computed from the abstract history.  A-rayon: indexed collect preserves order; chunk closures are pure functions of shared immutable data.",
    technique="correspondence: Coq model extracted to OCaml vs real code over exhaustive boundary alignments + oracle"),
  "C04": dict(
-   category="translation_validation",
-   text="Histories are driven through the real wavemem::Encoder (hook) and through the extracted Gallina model of SignalEncoder, blocks, "
-        "meta-data words, Reader::load_signal and get_value_at; oracle: meaning of the history. Exhaustive over every ordered pair and "
-        "triple of state kinds x widths 1..40, both sides of the 32-byte compression threshold, several appended segments, the raw (GHW) "
-        "and text (VCD) write paths. Proved in Coq so far: pack_unpack (write_n_state / n_state_to_bit_string round trip for all widths "
-        "and kinds), time_table_spec; load_encode is not closed, hence the level.",
-   design_ref="DESIGN.md section 6, C04",
-   note="Trusted: Coq kernel, extraction (ExtrOcamlBasic), OCaml driver incl. float_of_string as f64 parser and identity as LZ4, Rust harness, generators and the Python oracle computed from the abstract history.  A-lz4: lz4_flex round trip.",
-   technique="correspondence: Coq model extracted to OCaml vs real code + oracle; partial Coq proofs"),
+   category="proof",
+   text="Coq theorem storage_transparent_partial (Proofs/EncoderProofs.v, pinned in Properties/C04.v): for every history of time stamps "
+        "and VCD value changes over any number of signals, every block capacity 1..65536 (every segmentation), every compressor obeying "
+        "decompress(compress d) = d, a bit-vector signal of width >= 2 loaded by Reader::load_signal reports exactly the recorded changes "
+        "(time-table index, least kind, characters; equal neighbours once); corollary storage_independent_of_segmentation. Built from "
+        "load_fixed_stream, region_found/region_decodes, load_signal_blocks, entry_render, observe_entries, pack_unpack, leb_roundtrip, "
+        "metadata_roundtrip_*. Not covered by the end-to-end theorem (hence _partial): 1-bit signals, reals, strings, the raw (GHW) write path "
+        "and Encoder::append; these, and the tie of the whole model to the Rust code, are decided by the correspondence run: histories "
+        "driven through the real wavemem::Encoder (hook) and through the extracted model, exhaustive over kind orders x widths 1..40, both "
+        "sides of the compression threshold, appended segments, quiet gaps across the 65535 roll-over; oracle: meaning of the history.",
+   design_ref="DESIGN.md section 6, C04 and section 12.5",
+   note="Trusted: Coq kernel; the model Model/WaveMem.v is hand-written and tied to wavemem.rs by the correspondence check (extraction ExtrOcamlBasic, OCaml driver incl. float_of_string as f64 parser and identity as LZ4, Rust harness, generators, Python oracle). Theorem hypotheses: A-lz4 round trip as an explicit premise; < 2^32 time-table entries; < 4 GiB of data per signal; block capacity <= 65536.",
+   technique="Coq proof (refinement of the store to the recorded-history spec) + extracted-model correspondence"),
  "C06": dict(
    category="translation_validation",
    text="Canonical-form monitor (no equal neighbours, exact width, minimal kind, Real/String kinds) on every signal loaded from VCD text, "
